@@ -18,6 +18,26 @@
 #include "romea_core_common/math/EulerAngles.hpp"
 #include "romea_core_common/transform/SmartRotation3D.hpp"
 
+namespace
+{
+
+// body angular rate = E(roll, pitch) * d(roll, pitch, yaw)/dt for the Z-Y-X convention
+Eigen::Matrix3d bodyRateMatrix(const Eigen::Vector3d & angles)
+{
+  const double cr = std::cos(angles[0]);
+  const double sr = std::sin(angles[0]);
+  const double cp = std::cos(angles[1]);
+  const double sp = std::sin(angles[1]);
+
+  Eigen::Matrix3d E;
+  E << 1, 0, -sp,
+    0, cr, sr * cp,
+    0, -sr, cr * cp;
+  return E;
+}
+
+}  // namespace
+
 namespace romea
 {
 namespace core
@@ -72,49 +92,17 @@ Pose3D operator*(const Eigen::Affine3d & affine, const Pose3D & pose3D)
   Eigen::Vector3d T = affine.translation();
   Eigen::Matrix3d rotation = affine.rotation() * smartRotation.R();
 
-  Eigen::Matrix6d J = Eigen::Matrix6d::Zero();
-  J.block<3, 3>(0, 0) = rotation;
-
-  // derivative of rotation wrt angle around X = atan(r21/r22)
-  double r21 = rotation(2, 1);
-  double r22 = rotation(2, 2);
-  double a21 = r22 / (r21 * r21 + r22 * r22);
-  double a22 = r21 / (r21 * r21 + r22 * r22);
-  J(3, 3) = R.row(2).dot(
-    a21 * smartRotation.dRdAngleAroundXAxis().col(1) -
-    a22 * smartRotation.dRdAngleAroundXAxis().col(2));
-  J(3, 4) = R.row(2).dot(
-    a21 * smartRotation.dRdAngleAroundYAxis().col(1) -
-    a22 * smartRotation.dRdAngleAroundYAxis().col(2));
-  J(3, 5) = R.row(2).dot(
-    a21 * smartRotation.dRdAngleAroundZAxis().col(1) -
-    a22 * smartRotation.dRdAngleAroundZAxis().col(2));
-
-
-  // derivative of rotation wrt angle around Y = - asin(r20)
-  double r20 = rotation(2, 0);
-  double a20 = 1. / (1 - r20 * r20);
-  J(4, 3) = R.row(2).dot(a20 * smartRotation.dRdAngleAroundXAxis().col(0));
-  J(4, 4) = R.row(2).dot(a20 * smartRotation.dRdAngleAroundYAxis().col(0));
-  J(4, 5) = R.row(2).dot(a20 * smartRotation.dRdAngleAroundZAxis().col(0));
-
-
-  // derivative of rotation wrt angle around Z = atan(r10/r00)
-  double r10 = R(1, 0);
-  double r00 = R(0, 0);
-  double a10 = r00 / (r00 * r00 + r10 * r10);
-  double a00 = r10 / (r00 * r00 + r10 * r10);
-
-  J(5, 3) = (-a00 * rotation.row(0) + a10 * rotation.row(1)).dot(
-    smartRotation.dRdAngleAroundYAxis().col(0));
-  J(5, 4) = (-a00 * rotation.row(0) + a10 * rotation.row(1)).dot(
-    smartRotation.dRdAngleAroundXAxis().col(0));
-  J(5, 5) = (-a00 * rotation.row(0) + a10 * rotation.row(1)).dot(
-    smartRotation.dRdAngleAroundZAxis().col(0));
-
   Pose3D result;
   result.position = R * pose3D.position + T;
   result.orientation = rotation3DToEulerAngles(rotation);
+
+  // Jacobian of (position, roll, pitch, yaw) under the transform: the position block is R;
+  // multiplying by a constant rotation on the left leaves the body angular rate
+  // E(angles) * d(angles)/dt unchanged, hence d(angles')/d(angles) = E(angles')^-1 * E(angles)
+  Eigen::Matrix6d J = Eigen::Matrix6d::Zero();
+  J.block<3, 3>(0, 0) = R;
+  J.block<3, 3>(3, 3) = bodyRateMatrix(result.orientation).inverse() *
+    bodyRateMatrix(pose3D.orientation);
   result.covariance = J * pose3D.covariance * J.transpose();
   return result;
 }
